@@ -521,6 +521,9 @@ class ObjectBase(EntityContainer):
 
             self._children.remove(child)
 
+            if child is self._visual_parameters:
+                self._visual_parameters = None
+
         self.workspace.remove_children(self, children)
 
     def remove_children_values(
